@@ -2,7 +2,7 @@
 
 Each conjunct is a separate function so that a failing obligation names it.  They are
 assumed by `requires` of every operation and re-established by `ensures` (inductive)."""
-from pyvc.contract import as_str, forall, forall2, forall3, implies, is_none, is_str
+from pyvc.contract import all_addressed, as_str, forall, forall2, forall3, implies, is_none, is_str
 from spec import api, wire
 
 
@@ -62,6 +62,15 @@ def i_desired(gw):
     )
 
 
+def i_queue(gw):
+    """I-queue: what is withheld for a node is addressed to that node, and only a node that has announced smart
+    sleep has anything withheld (C07: the wake-up burst goes to the woken node and nowhere else)."""
+    return forall(
+        gw.sensors,
+        lambda n: all_addressed(gw.sensors[n].queue, n) and (not gw.sensors[n].queue or bool(gw.sensors[n].new_state)),
+    )
+
+
 def word(x):
     return 0 <= x and x <= 65535
 
@@ -89,4 +98,4 @@ def inv_shape(gw):
 
 
 def inv(gw):
-    return i_nodes(gw) and i_children(gw) and i_values(gw) and i_desired(gw) and i_ota(gw)
+    return i_nodes(gw) and i_children(gw) and i_values(gw) and i_desired(gw) and i_ota(gw) and i_queue(gw)
